@@ -497,16 +497,26 @@ impl H263State {
             }
 
             let this_tr = next_decoded_picture.as_header().temporal_reference;
-            self.last_picture = Some(this_tr);
-            if !next_decoded_picture
+            let is_disposable = next_decoded_picture
                 .as_header()
                 .picture_type
-                .is_disposable()
-            {
-                self.reference_picture = Some(this_tr);
+                .is_disposable();
+
+            // Temporal references are at most ten bits wide. Disposable pictures are
+            // filed under a key outside of that range, so that one which repeats the
+            // reference picture's temporal reference does not replace it.
+            let this_key = if is_disposable {
+                this_tr | 0x8000
+            } else {
+                this_tr
+            };
+
+            self.last_picture = Some(this_key);
+            if !is_disposable {
+                self.reference_picture = Some(this_key);
             }
 
-            self.reference_states.insert(this_tr, next_decoded_picture);
+            self.reference_states.insert(this_key, next_decoded_picture);
             self.cleanup_buffers();
 
             reader.commit();
